@@ -11,6 +11,8 @@ import Pike.Driver.Upsel
 import Pike.Driver.Crash
 import Pike.Driver.Reconf
 import Pike.Driver.Proxy
+import Pike.Driver.Fault
+import Pike.Driver.Store
 open Pike.Driver
 
 structure St where
@@ -20,6 +22,7 @@ structure St where
   crash : CrashSt := {}
   reconf : ReconfSt := {}
   proxy : ProxySt := {}
+  store : StoreSt := {}
 
 def judgeLine (st : St) (line : String) : St × String :=
   match line.splitOn "\t" with
@@ -31,6 +34,8 @@ def judgeLine (st : St) (line : String) : St × String :=
   | "proxy" :: rest => let (d, v) := judgeProxy st.proxy rest; ({ st with proxy := d }, v)
   | "reconf" :: rest => let (d, v) := judgeReconf st.reconf rest; ({ st with reconf := d }, v)
   | "crash" :: rest => let (d, v) := judgeCrash st.crash rest; ({ st with crash := d }, v)
+  | "store" :: rest => let (d, v) := judgeStore st.store rest; ({ st with store := d }, v)
+  | "fault" :: rest => (st, judgeFault rest)
   | "upsel" :: rest => (st, judgeUpsel rest)
   | "config" :: rest => (st, judgeConfig rest)
   | "codecs" :: rest => (st, judgeCodecs rest)
@@ -46,7 +51,7 @@ partial def loop (h : IO.FS.Stream) (out : IO.FS.Stream) (st : St) : IO Unit := 
   if line.isEmpty then return ()
   let l := if line.endsWith "\n" then (line.dropEnd 1).toString else line
   let (st', v) := judgeLine st l
-  out.putStrLn v
+  out.putStrLn (v.replace "\n" " ")   -- one verdict per input line, whatever a rendering contains
   loop h out st'
 
 def main (_args : List String) : IO Unit := do
